@@ -279,7 +279,8 @@ def memo(ctx, o):
         if not ok:
             o.refute(f, first, first, "the pass does not start with `if task.id in memo: return`")
             continue
-        apps = [c for c in facts.calls_named(f, 'append') if match(f"{ps.memo}.append({ps.task}.id)", c)]
+        apps = [c for c in facts.calls_named(f, 'append') + facts.calls_named(f, 'add')
+                if match(f"{ps.memo}.append({ps.task}.id)", c) or match(f"{ps.memo}.add({ps.task}.id)", c)]
         if not apps:
             o.refute(f, f.node, 'memo.append', "the pass never records the task in the memo")
             continue
